@@ -46,9 +46,12 @@ def get_class(name):
 def quiet():
     """Silence PEPit / solver chatter (python-level and fd-level)."""
     sys.stdout.flush()
+    sys.stderr.flush()
     saved = os.dup(1)
+    saved2 = os.dup(2)
     devnull = os.open(os.devnull, os.O_WRONLY)
     os.dup2(devnull, 1)
+    os.dup2(devnull, 2)      # cvxpy's verbose mode logs through the logging module (stderr)
     old = sys.stdout
     sys.stdout = io.StringIO()
     try:
@@ -56,7 +59,9 @@ def quiet():
     finally:
         sys.stdout = old
         os.dup2(saved, 1)
+        os.dup2(saved2, 2)
         os.close(saved)
+        os.close(saved2)
         os.close(devnull)
 
 
